@@ -165,7 +165,7 @@ def run(ctx):
                    "Ok(None) is answered after bytes were removed from the stream buffer and nothing was stored in the decoder: the next call parses "
                    "the rest of the frame as if it were its beginning (decode error or garbage for this segmentation, fine for others)  [context: "
                    + " <- ".join(last_seg(c) for c in cx[-3:]) + "]")
-    ctx.floor("R4f", "stream decoders whose need-more returns were checked for recorded progress", 11, n_prog)
+    ctx.floor("R4f", "stream decoders whose need-more returns were checked for recorded progress", 8, n_prog)
 
     # ---------------- R4b ----------------------------------------------------------------------
     n_read = 0
